@@ -31,6 +31,8 @@
 #include <condition_variable>
 #include <iostream>
 
+#include <tbox/base/verif_hook.h>
+
 namespace tbox {
 namespace util {
 
@@ -212,9 +214,13 @@ void AsyncPipe::Impl::cleanup()
     if (!inited_)
         return;
 
+    CPP_TBOX_VERIF_POINT("ap.c.begin", 0, 0);
     stop_signal_ = true;
+    CPP_TBOX_VERIF_POINT("ap.c.stop", 0, 0);
     full_buffers_cv_.notify_all();
+    CPP_TBOX_VERIF_POINT("ap.c.notified", 0, 0);
     backend_thread_.join();
+    CPP_TBOX_VERIF_POINT("ap.c.joined", 0, 0);
     stop_signal_ = false;
 
     assert(full_buffers_.empty());
@@ -247,6 +253,7 @@ void AsyncPipe::Impl::appendLockless(const void *data_ptr, size_t data_size)
 {
     const uint8_t *ptr = static_cast<const uint8_t*>(data_ptr);
     size_t  remain_size = data_size;
+    CPP_TBOX_VERIF_POINT("ap.p.enter", data_size, 0);
 
     while (remain_size > 0) {
         if (curr_buffer_ == nullptr) {
@@ -257,10 +264,12 @@ void AsyncPipe::Impl::appendLockless(const void *data_ptr, size_t data_size)
                 //! 如果缓冲块数还没有达到最大限值，则可以继续申请
                 if (buff_num_ < cfg_.buff_max_num) {
                     ++buff_num_;
+                    CPP_TBOX_VERIF_POINT("ap.p.grow", buff_num_, 0);
                     buff_num_mutex_.unlock();
                     free_buffers_.push_back(new Buffer(cfg_.buff_size));
                 } else {  //! 否则只能等待后端释放
                     buff_num_mutex_.unlock();
+                    CPP_TBOX_VERIF_POINT("ap.p.wait_free", 0, 0);
                     free_buffers_cv_.wait(lk, [this] { return !free_buffers_.empty(); });
                 }
             }
@@ -268,21 +277,25 @@ void AsyncPipe::Impl::appendLockless(const void *data_ptr, size_t data_size)
             //! 将 free_buffers_ 中最后的一个弹出来，给到 curr_buffer_
             curr_buffer_ = free_buffers_.back();
             free_buffers_.pop_back();
+            CPP_TBOX_VERIF_POINT("ap.p.take_free", free_buffers_.size(), 0);
             //! Q: 为什么从 free_buffers_ 尾部取，而不是向 full_buffers_ 那样从头部取呢？
             //! A: 因为 free_buffers_ 所存空闲缓冲，没有顺序要求。而 full_buffers_ 必须要有顺序性
             //!    既然不需要顺序性，那么 vector 的尾部进出是最高效的。
         }
         auto size = curr_buffer_->append(ptr, remain_size);
+        CPP_TBOX_VERIF_POINT("ap.p.chunk", size, curr_buffer_->size());
         if (curr_buffer_->full()) {
             //! 如果当前缓冲满了
             std::lock_guard<std::mutex> lg2(full_buffers_mutex_);
             full_buffers_.push_back(curr_buffer_);  //! 将 curr_buffer_ 放到 full_buffers_ 中
+            CPP_TBOX_VERIF_POINT("ap.p.push_full", curr_buffer_->size(), full_buffers_.size());
             full_buffers_cv_.notify_all();  //! 通知后台线程开始干活
             curr_buffer_ = nullptr;
         }
         ptr += size;
         remain_size -= size;
     }
+    CPP_TBOX_VERIF_POINT("ap.p.exit", data_size, 0);
 }
 
 void AsyncPipe::Impl::threadFunc()
@@ -298,6 +311,7 @@ void AsyncPipe::Impl::threadFunc()
                 //! 等待三种情况: 1.超时，2.停止，3.full_buffers_不为空
                 full_buffers_cv_.wait_for(lk, std::chrono::milliseconds(cfg_.interval),
                     [this, &is_wake_for_timeup, &is_wake_for_quit] {
+                        CPP_TBOX_VERIF_POINT("ap.b.pred", stop_signal_, full_buffers_.size());
                         if (stop_signal_)
                             is_wake_for_quit = true;
 
@@ -313,9 +327,11 @@ void AsyncPipe::Impl::threadFunc()
             }
         }
 
+        CPP_TBOX_VERIF_POINT("ap.b.wake", is_wake_for_timeup, is_wake_for_quit);
         //! 如果是超时或是收到停止信号，则先将 curr_buff_ 移到 full_buffers_
         if (is_wake_for_timeup || is_wake_for_quit) {
             if (curr_buffer_mutex_.try_lock()) {
+                CPP_TBOX_VERIF_POINT("ap.b.trylock", 1, (curr_buffer_ != nullptr) ? curr_buffer_->size() : 0);
                 if (curr_buffer_ != nullptr) {
                     //! Q: 这里为什么不锁 full_buffers_mutex_ ?
                     //! A: 因为锁住了 curr_buffer_mutex_ 就不会有前端调用 appendLockless()，仅有后端的线程操作。
@@ -336,6 +352,7 @@ void AsyncPipe::Impl::threadFunc()
                 if (!full_buffers_.empty()) {
                     buff = full_buffers_.front();
                     full_buffers_.pop_front();
+                    CPP_TBOX_VERIF_POINT("ap.b.pop", buff->size(), full_buffers_.size());
                 } else {
                     break;
                 }
@@ -350,6 +367,7 @@ void AsyncPipe::Impl::threadFunc()
                 buff_num_mutex_.lock();
                 if (buff_num_ > cfg_.buff_min_num) {
                     --buff_num_;
+                    CPP_TBOX_VERIF_POINT("ap.b.shrink", buff_num_, 0);
                     buff_num_mutex_.unlock();
                     delete buff;
                 } else {
@@ -357,11 +375,13 @@ void AsyncPipe::Impl::threadFunc()
                     //! 将处理后的缓冲放回 free_buffers_ 中
                     std::lock_guard<std::mutex> lg(free_buffers_mutex_);
                     free_buffers_.push_back(buff);
+                    CPP_TBOX_VERIF_POINT("ap.b.recycle", free_buffers_.size(), 0);
                     free_buffers_cv_.notify_all();
                 }
             }
         }
 
+        CPP_TBOX_VERIF_POINT("ap.b.round_end", is_wake_for_quit, 0);
         if (is_wake_for_quit)
             break;
     }
